@@ -166,19 +166,25 @@ def forbidden_scan():
 THEOREM_RE = re.compile(r"^\s*(Theorem|Lemma|Corollary)\s+([A-Za-z0-9_']+)", re.M)
 
 
-def property_theorems(pid):
-    """Names of the theorems stated in coq/Properties/Properties_<id>.v."""
-    path = os.path.join(COQ, "Properties", "Properties_%s.v" % pid)
+def property_files(pid):
+    """Properties_<id>.v and its continuation files Properties_<id>b.v, …c.v (same property)."""
+    import glob as _glob
+    base = os.path.join(COQ, "Properties", "Properties_%s.v" % pid)
+    more = sorted(f for f in _glob.glob(os.path.join(COQ, "Properties", "Properties_%s[a-z].v" % pid)))
+    return [base] + more
+
+
+def property_theorems(pid, path=None):
+    """Names of the theorems stated in a property statement file."""
+    path = path or os.path.join(COQ, "Properties", "Properties_%s.v" % pid)
     if not os.path.exists(path):
         return path, []
     txt = strip_coq_comments(open(path).read())
     return path, [m.group(2) for m in THEOREM_RE.finditer(txt)]
 
 
-def check_property_file(pid):
-    """Re-compile Properties_<id>.v, collect per-theorem Print Assumptions.
-    Returns dict: {ok, theorems:[{name, status, axioms:[..]}], log}."""
-    path, names = property_theorems(pid)
+def check_one_property_file(path):
+    _, names = property_theorems(None, path)
     res = {"ok": False, "theorems": [], "log": "", "file": os.path.relpath(path, VERIF)}
     if not names:
         res["log"] = "no theorems in " + path
@@ -221,6 +227,22 @@ def check_property_file(pid):
     return res
 
 
+def check_property_file(pid):
+    """Re-compile Properties_<id>.v (and continuation files), collect per-theorem Print Assumptions.
+    Returns dict: {ok, theorems:[{name, status, axioms:[..]}], log}."""
+    out = {"ok": True, "theorems": [], "log": "", "file": ""}
+    files = [f for f in property_files(pid) if os.path.exists(f)]
+    if not files:
+        return {"ok": False, "theorems": [], "log": "no Properties_%s.v" % pid, "file": ""}
+    for f in files:
+        r = check_one_property_file(f)
+        out["ok"] = out["ok"] and r["ok"]
+        out["theorems"] += r["theorems"]
+        out["log"] += r["log"][-3000:]
+        out["file"] += r["file"] + " "
+    return out
+
+
 def load_known_findings():
     path = os.path.join(VERIF, "known_findings.jsonl")
     out = []
@@ -253,7 +275,8 @@ class Ctx:
         """Build Coq, scan for forbidden commands, check Properties_<id>.v.
         Records obligations/discharged; broken ones go to self.broken."""
         # build only the dependency closure of this property's statement file
-        ok, log = coq_make(["Properties/Properties_%s.vo" % self.pid])
+        ok, log = coq_make([os.path.relpath(f, COQ)[:-2] + ".vo" for f in property_files(self.pid) if os.path.exists(f)]
+                           or ["Properties/Properties_%s.vo" % self.pid])
         self.notes["coq_make_ok"] = ok
         hits = forbidden_scan()
         if hits:
@@ -267,8 +290,8 @@ class Ctx:
         self.coverage["theorems"] = [{"name": t["name"], "status": t["status"], "axioms": t["axioms"]} for t in ths]
         self.coverage["partial_theorems"] = [t["name"] for t in partial]
         self.coverage["refuted_theorems"] = [t["name"] for t in refuted]
-        self.coverage["checker_cmd"] = "cd /verif/coq && make -j16 && coqc -Q . NV %s" % os.path.relpath(
-            os.path.join(COQ, "Properties", "Properties_%s.v" % self.pid), COQ)
+        self.coverage["checker_cmd"] = "cd /verif/coq && make -j16 && " + " && ".join(
+            "coqc -Q . NV %s" % os.path.relpath(f, COQ) for f in property_files(self.pid) if os.path.exists(f))
         for t in ths:
             if t["status"] != "discharged":
                 self.broken.append({"kind": "theorem", "name": t["name"], "status": t["status"],
